@@ -1236,7 +1236,9 @@ func runContention(r *ev.Run) {
 			}
 		}
 		if !waited && len(res.Found) == 0 {
-			panic("E2 engine error in " + res.Scenario + ": no schedule made a request wait for the plugin lock")
+			// (a tree in which requests never wait for each other is C16's business; here the
+			// scenario simply has nothing to say)
+			r.Capped(res.Scenario + ": no schedule made a request wait for a lock; the expiry-under-contention clause was not exercised")
 		}
 		alloc.ReportSched(r, "C03", res, map[string]interface{}{"pre": cs.Pre, "threads": cs.Threads, "virtual_wait_cost": waitCost.String()})
 	}
